@@ -4,6 +4,7 @@
    While a case runs the model may ask for a primitive (RSA, X.509, PEM):
      Q <kind> <arg> ...          <- A <answer>
    Verdicts: ok | violation | mismatch | skip. *)
+module ZA = Z   (* Zarith, before the extracted module Z shadows it *)
 open Model
 type string = Stdlib.String.t   (* the extracted Coq [string] type must not shadow OCaml's *)
 
@@ -18,18 +19,18 @@ let rec int_of_pos = function
 let int_of_n = function N0 -> 0 | Npos p -> int_of_pos p
 
 (* arbitrary-size decimal <-> N through Zarith *)
-let rec pos_of_z (z : Z.t) : positive =
-  if Z.equal z Z.one then XH
-  else if Z.is_even z then XO (pos_of_z (Z.shift_right z 1))
-  else XI (pos_of_z (Z.shift_right z 1))
-let n_of_z (z : Z.t) : n = if Z.sign z = 0 then N0 else Npos (pos_of_z z)
+let rec pos_of_z (z : ZA.t) : positive =
+  if ZA.equal z ZA.one then XH
+  else if ZA.is_even z then XO (pos_of_z (ZA.shift_right z 1))
+  else XI (pos_of_z (ZA.shift_right z 1))
+let n_of_z (z : ZA.t) : n = if ZA.sign z = 0 then N0 else Npos (pos_of_z z)
 let rec z_of_pos = function
-  | XH -> Z.one
-  | XO p -> Z.shift_left (z_of_pos p) 1
-  | XI p -> Z.succ (Z.shift_left (z_of_pos p) 1)
-let z_of_n = function N0 -> Z.zero | Npos p -> z_of_pos p
-let n_of_string s = n_of_z (Z.of_string s)
-let string_of_n x = Z.to_string (z_of_n x)
+  | XH -> ZA.one
+  | XO p -> ZA.shift_left (z_of_pos p) 1
+  | XI p -> ZA.succ (ZA.shift_left (z_of_pos p) 1)
+let z_of_n = function N0 -> ZA.zero | Npos p -> z_of_pos p
+let n_of_string s = n_of_z (ZA.of_string s)
+let string_of_n x = ZA.to_string (z_of_n x)
 
 let byte_tab : byte array = Array.init 256 (fun i -> n2b (n_of_int i))
 let byte_of_int i = byte_tab.(i land 255)
@@ -159,6 +160,33 @@ let node_of_string s =
   | ["U"; h; p; i] -> NUsb (hdr_of_string h, n_of_string p, n_of_string i)
   | _ -> failwith ("bad node " ^ s)
 
+(* ---------- PKCS#7 ---------- *)
+let rec z_of_zarith (z : ZA.t) : Model.z =
+  if ZA.sign z = 0 then Z0 else if ZA.sign z > 0 then Zpos (pos_of_z z) else Zneg (pos_of_z (ZA.neg z))
+let zarith_of_z = function Z0 -> ZA.zero | Zpos p -> z_of_pos p | Zneg p -> ZA.neg (z_of_pos p)
+let cert_of_string s =
+  match String.split_on_char ':' s with
+  | [i; ser; k] -> { c_issuer = bytes_of_hex i; c_serial = z_of_zarith (ZA.of_string ser); c_key = n_of_string k }
+  | _ -> failwith ("bad cert " ^ s)
+let utctime_oracle (t : byte list) : bool = (ask ["utctime"; hex_of_bytes t] = "1")
+let x509_oracle (raw : byte list) : bool = (ask ["x509"; hex_of_bytes raw] = "1")
+let rsa_oracle (key : n) (msg : byte list) (sg : byte list) : bool =
+  (ask ["rsa"; string_of_n key; hex_of_bytes msg; hex_of_bytes sg] = "1")
+let oid_of_string s = List.map n_of_string (split '.' s)
+let signer_obs_of_string s =
+  match String.split_on_char '/' s with
+  | [i; ser; md; has; ct; sg; mar] ->
+      { so_issuer = bytes_of_hex i; so_serial = z_of_zarith (ZA.of_string ser); so_md = bytes_of_hex md;
+        so_has_attrs = bool_of_string01 has; so_ctype = oid_of_string ct; so_sig = bytes_of_hex sg;
+        so_marshal = bytes_of_hex mar }
+  | _ -> failwith ("bad signer obs " ^ s)
+let p7_obs_of cls rest =
+  match cls, rest with
+  | "ok", [oid; content; signers] ->
+      Some { po_oid = oid_of_string oid; po_content = bytes_of_hex content;
+             po_signers = List.map signer_obs_of_string (split ',' signers) }
+  | _ -> None
+
 (* ---------- dispatch ---------- *)
 let verdict b = if b then "ok" else "violation"
 
@@ -254,6 +282,26 @@ let run (op : string) (a : string list) : string list =
   | "safety", [len; cls; alloc] ->
       let c = (match cls with "ret" -> CRet | "panic" -> CPanic | "exit" -> CFatal | _ -> CFatal) in
       [verdict (cls <> "timeout" && check_safety (n_of_string len) c (n_of_string alloc))]
+  (* C04 / C16 *)
+  | "p7_verify", [mode; blob; c; impl] ->
+      let blob = bytes_of_hex blob and c = cert_of_string c in
+      let m = int_of_n (model_verify utctime_oracle x509_oracle rsa_oracle blob c) in
+      let sound = check_verify utctime_oracle x509_oracle rsa_oracle blob c (impl = "true") in
+      let complete = mode = "sound" || check_accepts utctime_oracle x509_oracle rsa_oracle blob c (impl = "true") in
+      let ms = (match m with 2 -> "true" | 1 -> "false" | _ -> "err") in
+      let same = (ms = impl) || (ms = "err" && impl <> "true" && impl <> "false") in
+      [(if not sound then "violation" else if not complete then "violation-incomplete" else if same then "ok" else "mismatch");
+       ms; s01 (p7_parses utctime_oracle x509_oracle blob)]
+  | "p7_parse", blob :: cls :: rest ->
+      let blob = bytes_of_hex blob in
+      let o = p7_obs_of cls rest in
+      [verdict (check_p7_parse utctime_oracle x509_oracle blob o && check_reencode utctime_oracle x509_oracle blob o);
+       s01 (p7_parses utctime_oracle x509_oracle blob);
+       s01 (check_reencode utctime_oracle x509_oracle blob o)]
+  (* C05 *)
+  | "p7_sign", [cert_raw; issuer; serial; oid; content; time; sg; tbs; impl] ->
+      [verdict (check_sign (bytes_of_hex cert_raw) (bytes_of_hex issuer) (n_of_string serial) (oid_of_string oid)
+                  (bytes_of_hex content) (bytes_of_hex time) (bytes_of_hex sg) (bytes_of_hex tbs) (bytes_of_hex impl))]
   | _ -> ["skip"; "unknown op " ^ op]
 
 let () =
